@@ -128,6 +128,20 @@ def run(r):
         for fq, fn in r.P.functions.items():
             if fn.module == s.func.module and fn.node.lineno <= ln <= getattr(fn.node, "end_lineno", fn.node.lineno) and fn.parent is None:
                 host = r.A.summary(fq)
+    for e0 in evs0:
+        c0 = strip(e0["term"])
+        if strip(c0[1]) == ("glob", "builtins.eval") and c0[2]:
+            # the evaluated text names a variable of the enclosing function: it has to be the graph built from the edges
+            t0 = strip(c0[2][0])
+            prefix = str(strip(t0[1][0])[2]) if head(t0) == "fstr" and t0[1] and is_const(strip(t0[1][0])) else (str(t0[2]) if is_const(t0) else None)
+            name = prefix.split(".", 1)[0] if prefix and "." in prefix else None
+            gv = strip(host.env.get(name)) if name and name in host.env else None
+            okg = gv is not None and any(head(x) == "call" and strip(x[1]) == ("glob", "igraph.Graph") for x in walk(("t", gv)))
+            if name is None:
+                rep.require(False, "C15-CFG: the text handed to eval() does not start with '<variable>.community_'; cannot decide")
+            else:
+                rep.ob("C15-CFG", q, okg, "the text evaluated for community detection names the graph built from the edges", where_of(r.P, s.func, e0.node),
+                       expected=f"{name} = igraph.Graph(edges, n=len(nodes)) in the same function", found=(show(gv, 60) if gv is not None else f"no local '{name}'"), key="eval names the graph")
     g = host.env.get("g")
     simp = [e for e in s.events_of("call") if head(strip(strip(e["term"])[1])) == "attr" and strip(strip(e["term"])[1])[2] == "simplify"]
     evs = [e for e in s.events_of("call") if _is_community_lookup(strip(e["term"]))]
